@@ -353,6 +353,19 @@ func typeAssert(n *node, withResult, withOk bool) {
 		setStatus = n.anc.child[1].ident != "_" // do not assign status to "_"
 	}
 
+	// done ends an assertion of the form v, ok = x.(T): it sets ok, and v to its
+	// zero value when the assertion failed.
+	done := func(f *frame, ok *bool) {
+		if setStatus {
+			value1(f).SetBool(*ok)
+		}
+		if !*ok && withResult {
+			if v := value0(f); v.CanSet() {
+				v.Set(reflect.Zero(v.Type()))
+			}
+		}
+	}
+
 	typ := c1.typ // type to assert or convert to
 	typID := typ.id()
 	rtype := typ.refType(nil) // type to assert
@@ -363,10 +376,8 @@ func typeAssert(n *node, withResult, withOk bool) {
 		n.exec = func(f *frame) bltn {
 			valf := value(f)
 			v, ok := valf.Interface().(valueInterface)
-			if setStatus {
-				defer func() {
-					value1(f).SetBool(ok)
-				}()
+			if withOk {
+				defer done(f, &ok)
 			}
 			if !ok || v.node == nil {
 				ok = false
@@ -438,10 +449,8 @@ func typeAssert(n *node, withResult, withOk bool) {
 			var leftType reflect.Type
 			v := value(f)
 			val, ok := v.Interface().(valueInterface)
-			if setStatus {
-				defer func() {
-					value1(f).SetBool(ok)
-				}()
+			if withOk {
+				defer done(f, &ok)
 			}
 			if ok && val.node == nil {
 				// The value is a nil interface.
@@ -504,10 +513,8 @@ func typeAssert(n *node, withResult, withOk bool) {
 	case isEmptyInterface(n.child[0].typ):
 		n.exec = func(f *frame) bltn {
 			var ok bool
-			if setStatus {
-				defer func() {
-					value1(f).SetBool(ok)
-				}()
+			if withOk {
+				defer done(f, &ok)
 			}
 			val := value(f)
 			concrete := val.Interface()
@@ -542,10 +549,8 @@ func typeAssert(n *node, withResult, withOk bool) {
 		n.exec = func(f *frame) bltn {
 			v := value(f).Elem()
 			ok := v.IsValid()
-			if setStatus {
-				defer func() {
-					value1(f).SetBool(ok)
-				}()
+			if withOk {
+				defer done(f, &ok)
 			}
 			if !ok {
 				if !withOk {
@@ -574,10 +579,8 @@ func typeAssert(n *node, withResult, withOk bool) {
 	default:
 		n.exec = func(f *frame) bltn {
 			v, ok := value(f).Interface().(valueInterface)
-			if setStatus {
-				defer func() {
-					value1(f).SetBool(ok)
-				}()
+			if withOk {
+				defer done(f, &ok)
 			}
 			if !ok || !v.value.IsValid() {
 				ok = false
